@@ -178,6 +178,15 @@ def family_configs(fam, centres, tier):
                     for (d, a) in A:
                         yield {'cls': 'regpoly', 'center': c, 'n': n, 'radius': r, 'angle': a, 'adeg': d}, allm
         elif fam == 'small':
+            # integral sizes given as narrow numpy integers (squares of them do not fit the type)
+            for dt, (w, h) in (('int16', (200, 300)), ('uint8', (20, 16)), ('int8', (12, 100)), ('uint16', (300, 260)), ('int64', (7, 3))):
+                for (d, a) in A[:3]:
+                    yield {'cls': 'ellipse', 'center': c, 'width': w, 'height': h, 'angle': a, 'adeg': d, 'size_dtype': dt}, allm
+                    yield {'cls': 'rectangle', 'center': c, 'width': w, 'height': h, 'angle': a, 'adeg': d, 'size_dtype': dt}, allm
+                    yield {'cls': 'ellipseannulus', 'center': c, 'inner_width': w // 2, 'inner_height': h // 2, 'outer_width': w,
+                           'outer_height': h, 'angle': a, 'adeg': d, 'size_dtype': dt}, allm
+                yield {'cls': 'circle', 'center': c, 'radius': w, 'size_dtype': dt}, allm
+                yield {'cls': 'circleannulus', 'center': c, 'inner_radius': h // 2, 'outer_radius': max(w, h), 'size_dtype': dt}, allm
             for r in S:
                 yield {'cls': 'circle', 'center': c, 'radius': r}, allm
             for ri in S:
